@@ -12,6 +12,9 @@ CLAIMED = {
  "C03": ("Coq model of filterWithLContext (state machine, branch for branch, with the running-number arithmetic) and a declarative grep specification; proved equal on the finite domain |file|<=8, before/after<=3, max<=4 (kernel-evaluated sweep lifted by forallb_forall), no-op pattern theorems; full unbounded statement kept visible as C03_full. Tied to the code through the reader API and the real dgrep CLI with RE2 verdicts as oracle.",
          "partial: unbounded induction for C03_full not yet proved; RE2 is an oracle",
          "Coq proof (finite sweep lifted by forallb_forall; structural lemmas) + differential correspondence check"),
+ "C08": ("Coq model of the permission decision (rule parsing with the optional type prefix and '!', last-match-wins iteration, abort on an uncompilable rule, per-user lists replacing the defaults, resolved path / regular-file gate); theorems: C08_parse (every pattern, ':' included, bare or prefixed, is read as its meaning), C08_served_iff (served iff resolved, regular and the LAST matching rule is an allow) for all rule lists and match oracles, and the refutation of the pinned parser (a skipped deny rule grants access). Tied to the code by running user.HasFilePermission on generated trees with symlink chains, FIFOs, '..' and rule lists with POSIX classes.",
+         "partial: regexp and OS path resolution are oracles (Python realpath/lstat is the independent reference); TOCTOU between check and open is outside the model; background users bypass by design",
+         "Coq proof (induction over rule lists, rev_ind for last-match) + differential correspondence check on real directory trees"),
  "C10": ("Coq theorem C10_no_panic: for every byte stream, session state and behaviour of the library oracles, the model of Write -> handleCommand -> protocol/base64/option parsing -> dispatch -> arity checks never reaches a Go panic (every index/slice/nil access is a checked operation in the model). Tied to the code by a decode-level comparison (real ServerHandler up to the command callback) and by a crash oracle: generated payloads are fed to real sessions in child processes, a dead process is a violation.",
          "partial: query parsing totality is C11's theorem; reader internals beyond the before-context bound, regexp and x/crypto are outside the model; resource exhaustion is out of scope",
          "Coq proof (case analysis with checked indexing) + crash oracle in child processes + decode-level differential check"),
